@@ -499,7 +499,9 @@ impl<'a> ImplWork<'a> {
         // we'll try to keep as much as it is possible from original Spans 
         let turbo_self = quote!{ Self:: };
         if crate::model::includes( &met.sig, &turbo_self  ){
-            substitute(&mut met.sig, &turbo_self, &self.actor_turbo_ty );
+            // `Self::Item` -> `Actor::<T>::Item`, the path separator stays
+            let actor_turbo_ty = &self.actor_turbo_ty;
+            substitute(&mut met.sig, &turbo_self, &quote!{ #actor_turbo_ty :: } );
         }
 
         let slf = quote!{ Self };
